@@ -17,11 +17,11 @@ RULE = ("random edit histories (1-25 calls quick, 1-60 thorough; 2-7 labels mixi
         "call all read paths are cross-checked in the worker and the dump is compared with the Coq model's step. The cross-check includes to_numpy_vectors with every option combination (variable_order None / reversed / rotated, sort_indices, sort_labels, return_labels) on the base object and on its .spin/.binary handles: every (row label, col label, bias) triple is an interaction with that bias, each exactly once, linear vector in label order. Generated cases avoid "
         "the inputs of the reported defects (kept in corpus/C04); a float history is cut where a value needs more than 17 (float32) / "
         "44 (float64) significant bits; non-trivial = at least one successful call; distinct by case JSON")
-TRUSTED = ["translator translators/qm_limits.py (vartypes.h limits table and the shape of cyQM.add_variable checks, fail-closed)", "model: coq/theories/Model/Poly.v, View.v, Hist.v, ChkC04.v (hand-written mirror of the public BQM/QM methods and vartypeview.py)",
+TRUSTED = ["translator translators/qm_limits.py (vartypes.h limits table and the shape of cyQM.add_variable checks, fail-closed)", "translator translators/relabel_resize_rules.py (iter_safe_relabels error conditions via ast, resize guards of both back-ends, fail-closed)", "model: coq/theories/Model/Poly.v, View.v, Hist.v, ChkC04.v (hand-written mirror of the public BQM/QM methods and vartypeview.py)",
            "labels chosen by automatic labelling on resize are taken from the implementation (their rule is property C13)",
            "float arithmetic of the implementation is exact on the generated dyadic data (guarded by the significant-bit cut)"]
 ASSUMPTIONS = ["IEEE-754 arithmetic is exact on dyadic values that fit the significant-bit guard",
                "Python label equality is modelled by the label table (ints, strings, tuples only; no numeric aliases)"]
-PARTIAL = ["C04_qm_flip_is_noop_on_failure needs the side condition that no neighbour is a REAL variable; without it flip_variable is not all-or-nothing (C04_qm_flip_refuted, corpus d9)",
-           "C04_backends_same_step relates the dict-order and array-order relabelling rules from the SAME state (outcome, polynomial, set of variable records); a history-level statement does not hold for the order-dependent calls (pop, resize shrink, relabel_as_integers) once the orders differ and is checked per history by the correspondence instead",
-           "C04_contract_energy is proved for the base object (Direct handle); contraction through a .spin/.binary handle is covered by atomicity/well-formedness theorems and the correspondence only"]
+PARTIAL = ["C04_qm_flip_is_noop_on_failure needs the side condition that no neighbour is a REAL variable; without it flip_variable is not all-or-nothing (C04_qm_flip_refuted, open finding d9)",
+           "C04_backends_indistinguishable covers histories of calls that do not consult the variable order AND do not iterate a neighbourhood in state order (primitive writes, *_from loops, named removals, relabel_variables, offset, clear, plain scale); contract / flip / fix / looping scale / update / change_vartype / set_linear and remove_variable through a translating view build the same polynomial only up to the order of its terms, which needs coefficient equivalence as the relation - not proved, checked per history by the correspondence; pop, resize shrink and relabel_as_integers are characterised by C04_pop_is_remove_last, C04_resize_shrink_keeps_prefix, C04_relabel_ints_is_positional",
+           "C04_contract_energy holds for the base object and (C04_contract_energy_same_vartype_handle) for a handle whose vartype coincides with the base's; contraction through a translating .spin/.binary view has atomicity and well-formedness theorems only"]
